@@ -195,8 +195,14 @@ func (r *Run) backedUp(n int) (bool, string) {
 	if want > run-1 {
 		want = run - 1
 	}
+	keys := make([]string, 0, n+16)
 	for i := 0; i < n; i++ {
-		key := "k" + strconv.Itoa(i)
+		keys = append(keys, "k"+strconv.Itoa(i))
+	}
+	for i := 0; i < 16; i++ {
+		keys = append(keys, "h"+strconv.Itoa(i)) // controller-owned keys of C03
+	}
+	for _, key := range keys {
 		prim, back := 0, 0
 		for _, c := range r.Copies(r.P.DMap, key) {
 			if c.Found && c.Kind == "primary" && c.Routed == "owner" {
